@@ -1,5 +1,5 @@
 (* C11 — Every honestly produced, in-date quote is accepted at every checking level. *)
-From V Require Import Model.Verify Model.AbiSpec Proofs.Abi.
+From V Require Import Model.Verify Model.AbiSpec Proofs.Abi Proofs.Verify Proofs.VerifyComplete.
 
 (* Byte level: whatever the platform serialises for a well-formed message - any
    header / body contents, QE authentication data of any length, optional bytes
@@ -21,7 +21,26 @@ Proof.
   destruct (chain_bytes q) eqn:E; [contradiction|]. cbn [length Nat.eqb]. rewrite H. reflexivity.
 Qed.
 Print Assumptions C11_trailing_nul.
-(* C11_accept_partial: the acceptance of every honest world at the three levels is
-   established by the correspondence runs (honest worlds from the generator on
-   the implementation and on the model); the model-level completeness theorem
-   (honest facts imply acceptance) is not yet proved - see DESIGN.md. *)
+(* Acceptance: a quote all of whose links hold -- the message passes the structure
+   checks; the chain extracts; every certificate has its role's name, is signed by
+   the next and the leaf has a path into the effective roots at the PCK time; the
+   quote and QE report signatures verify and the QE report data binds the
+   attestation key; no artefact is past its date at its own verification time;
+   and, per checking level, the collateral was fetched, is authentic, in date,
+   names no listed certificate, and the TD body / QE report meet it -- is
+   accepted.  [all_links_hold] (Proofs/VerifyComplete.v) is the conjunction of
+   exactly the facts that acceptance implies, so the two coincide. *)
+Theorem C11_honest_accepted : forall w q o wall,
+  all_links_hold w q o wall -> fst (verify w (Some q) (Some o) wall) = Ok tt.
+Proof. exact honest_accepted. Qed.
+Theorem C11_accepted_iff : forall w q o wall,
+  fst (verify w (Some q) (Some o) wall) = Ok tt <-> all_links_hold w q o wall.
+Proof. exact accepted_iff. Qed.
+Theorem C11_raw : forall w raw q o wall,
+  parse raw = Ok q -> all_links_hold w q o wall -> fst (verify_raw w raw (Some o) wall) = Ok tt.
+Proof. intros w raw q o wall Hp H. unfold verify_raw. rewrite Hp. apply honest_accepted, H. Qed.
+Print Assumptions C11_honest_accepted.
+Print Assumptions C11_accepted_iff.
+Print Assumptions C11_raw.
+(* Non-vacuity: the honest worlds of the generator are accepted by the model in
+   every correspondence run, so by C11_accepted_iff they satisfy all_links_hold. *)
